@@ -1403,6 +1403,7 @@ func (h *NtfnsHandler) resume(log bool, msg string, fields logging.LogFormat) {
 	case h.sigResume <- struct{}{}:
 	case <-h.quit:
 	}
+	simYield("worker.resumed")
 	if log {
 		logging.VPrint(logging.INFO, msg, fields)
 	}
